@@ -202,6 +202,7 @@ def lane(args):
         orig = open(os.path.join('/repo', f)).read()
         open(path, 'w').write('\n'.join(new))
         status, red = 'SURVIVED', []
+        errs = 0
         try:
             for cm in cms:
                 env = dict(os.environ, SC3_REPO=scr, PYTHONPATH=VERIF)
@@ -218,12 +219,17 @@ def lane(args):
                 if res['red']:
                     status, red = 'caught', res['red']
                     break
-                if res['err']:
-                    status = 'error'
-                elif res['oos'] and status == 'SURVIVED':
+                if res['err'] or not res['n']:
+                    # this module has nothing to say about the function under this property (or tripped over
+                    # something else in the file): an error only if no module gives a verdict
+                    errs += 1
+                    continue
+                if res['oos'] and status == 'SURVIVED':
                     status = 'oos'
         finally:
             open(path, 'w').write(orig)
+        if errs == len(cms) and status == 'SURVIVED':
+            status = 'error'
         out.append({'status': status, 'property': pid, 'file': f, 'function': qual, 'line': lineno, 'change': what,
                     'failed': red[:1]})
     return out
